@@ -24,9 +24,15 @@ from mc.refs import bpsynth as bp
 NEEDS_BRIDGEPOINT = True
 BUDGET_S = {'quick': 1200, 'thorough': 4000}
 ASSUMPTIONS = [
-    'models: Simple_Model.xtuml (all rows, file order), the same with a second component "Other" holding a package, and the '
-    'synthesised bpsynth.rich_diagram (two components, nested packages, global elements, user types over core / '
-    'enumeration / user types, derived and unsupported attributes, referentials through two levels)',
+    'models: Simple_Model.xtuml (all rows, file order); "simple2" = the same plus a sibling component "Other" with a package, '
+    'a component nested in the package "Classes" and a package reference (EP_PKGREF) from "Classes" to the package of '
+    '"Other"; the synthesised bpsynth.rich_diagram (two components, nested packages, global elements, user types over core / '
+    'enumeration / user types, derived and unsupported attributes, referentials through two levels); and '
+    'bpsynth.packaging_diagram (component > package > package > nested component > package > class, packages of a sibling '
+    'component and of the global scope referred to from inside the component, each with a class and a data type)',
+    'scope: an element is in a component when the component is reached from its package / component through parents '
+    '(R8000, R8001, R8003) and through packages that refer to a package on the way (R1402); chains of references '
+    '(a referring package that is itself only referred to) are not generated',
     'edit scripts of length <= 2 (quick) / 3 (thorough) on Simple_Model and <= 1 / 2 on the rich diagram; values per site from '
     'small palettes rotated by VERIF_SEED',
     'supported types: the core types boolean, integer, real, string, unique_id, enumerations, and user types over them; '
@@ -39,6 +45,10 @@ ASSUMPTIONS = [
     'gen_xsd_schema.main (0.25 s per call for parsing the ooaofooa schema) runs for every component in every state of depth '
     '<= 1 (thorough: <= 2); in every state the same serialisation steps (ElementTree.tostring + prettify) run on the tree '
     'returned by build_schema',
+    'live edits: on the loaded start model of the packaging diagram and of simple2 (thorough: also rich and Simple_Model) '
+    'every edit of the menu that has an API-level form (rename / retype attribute, move class or data type, add enumerator, '
+    'toggle derived, rename class) is applied with setattr / relate / unrelate / new / delete between two generations on '
+    'the SAME metamodel object; the second generation must equal expected_xsd of the edited diagram',
     'row orders: reversal of the whole file in every state; every rotation of the file and every permutation of every '
     'group of <= 6 rows of the tables the generator reads in the initial states; permutations of the groups of the edited '
     'tables in every single-edit state (groups of <= 3 rows in quick); the diagram layout rows (GD_*, DIM_*) are left out of '
@@ -66,44 +76,28 @@ TOUCHED = {
 # (base, palette level, edit depth, main() up to depth, reversed file up to depth, permutations: max group in single-edit
 #  states; 0 = initial state only, None = none) -- cheapest stage first
 PLAN = {
-    'quick': [('simple2', 'quick', 1, 1, 99, 0), ('rich', 'quick', 1, 0, 99, 0), ('simple', 'quick', 2, 1, 99, 3)],
-    'thorough': [('simple2', 'quick', 2, 1, 99, 4), ('rich', 'lean', 2, 1, 99, 4), ('simple', 'lean', 3, 1, 2, 6),
+    'quick': [('pack', 'lean', 1, 1, 99, 0), ('simple2', 'quick', 1, 1, 99, 0), ('rich', 'quick', 1, 0, 99, 0),
+              ('simple', 'quick', 2, 1, 99, 3)],
+    'thorough': [('pack', 'quick', 1, 1, 99, 4), ('simple2', 'quick', 2, 1, 99, 4), ('rich', 'lean', 2, 1, 99, 4), ('simple', 'lean', 3, 1, 2, 6),
                  ('simple', 'full', 2, 0, 99, None)],
 }
+# start models on which every API-level ("live") edit of the menu is applied to the loaded metamodel
+LIVE = {'quick': [('pack', 'lean'), ('simple2', 'quick')],
+        'thorough': [('pack', 'quick'), ('simple2', 'quick'), ('rich', 'lean'), ('simple', 'full')]}
 TYPES_LEAN = ['My_Enum', 'inst_ref<Object>', 'Price']
-
-
-def prefix_of(base):
-    '''Edit script that prepares a base: 'simple2' = Simple_Model plus a second component holding a package.'''
-    if base != 'simple2':
-        return []
-    w = bp.base_world('simple')
-    top = sorted(c.id for c in w.d.conts.values() if c.kind == 'pkg' and c.parent is None)[0]
-    op1 = ['add_container', 'comp', 'Other', top]
-    w.apply(op1)
-    other = w.d.cont_named('comp', 'Other').id
-    return [op1, ['add_container', 'pkg', 'OtherClasses', other]]
 
 
 class XsdModel(bp.EditModel):
     '''level: 'lean' | 'quick' | 'full' -- size of the value palettes per edit site.'''
 
     def __init__(self, base, tier='quick', seed=0, main_depth=1, level=None, reverse_depth=99):
-        bp.EditModel.__init__(self, 'simple' if base == 'simple2' else base, tier, seed)
-        self.name = base
-        self.prefix = prefix_of(base)
+        bp.EditModel.__init__(self, base, tier, seed)
         self.palette = PALETTES[seed % len(PALETTES)]
         self.level = level or 'quick'
         self.full = self.level == 'full'
         self.lean = self.level == 'lean'
         self.main_depth = main_depth
         self.reverse_depth = reverse_depth
-
-    def initial(self):
-        return [list(self.prefix)]
-
-    def depth_of(self, hist):
-        return len(hist) - len(self.prefix) if hist[:len(self.prefix)] == self.prefix else len(hist)
 
     def case(self, hist, op):
         return dict(base=self.name, hist=hist, op=op, tier=self.tier, seed=self.seed, level=self.level)
@@ -198,7 +192,7 @@ class XsdModel(bp.EditModel):
         return ops
 
     def homes(self, d):
-        if self.full:
+        if self.full or self.name == 'pack':
             return [None] + sorted(d.conts)
         tops = sorted(c.id for c in d.conts.values() if c.kind == 'pkg' and c.parent is None)
         comps = sorted(c.id for c in d.conts.values() if c.kind == 'comp')
@@ -210,10 +204,13 @@ class XsdModel(bp.EditModel):
         for c in comps[1:2]:
             sub = [x for x in inner if d.conts[x].parent == c]
             out += sub[:1] or [c]
+        for h in bp.special_homes(d):       # packages of nested components, referenced packages
+            if h not in out:
+                out.append(h)
         return out
 
-    def check(self, ctx, w, hist, routes=None, perm=None):
-        check_state(ctx, self, w, hist, routes, perm)
+    def check(self, ctx, w, hist, routes=None, perm=None, live=None):
+        check_state(ctx, self, w, hist, routes, perm, live)
 
 
 def components(d):
@@ -253,7 +250,12 @@ def allowed_change(op, dp, dc):
     return out
 
 
-def check_state(ctx, model, w, hist, routes=None, perm=None):
+def check_state(ctx, model, w, hist, routes=None, perm=None, live=None):
+    '''
+    Compare every route of the generator with expected_xsd in the state *w* reached by *hist*.
+    perm: rows already permuted by the caller (build route only).  live: an edit that is applied to the LOADED
+    metamodel through the xtuml API between two generations on the same metamodel object.
+    '''
     import xml.etree.ElementTree as ET
     from bridgepoint import gen_xsd_schema
     d = w.d
@@ -270,10 +272,10 @@ def check_state(ctx, model, w, hist, routes=None, perm=None):
 
     def bad(route, comp, fam, kind, msg, exp=None, obs=None):
         case = dict(base=model.name, hist=hist, tier=model.tier, seed=model.seed, level=model.level,
-                    op=['probe', route, comp.name], perm=perm)
+                    op=['probe', route, comp.name], perm=perm, live=live)
         ctx.violation('c20:%s:%s:%s' % (route, fam, kind), case,
                       '%s after %s, component %s, route %s: %s' % (model.name, json.dumps(hist), comp.name, route, msg),
-                      exp, obs, unit_test=unit_test(model, w, comp.name, route))
+                      exp, obs, unit_test=unit_test(model, w, comp.name, route, live))
 
     def compare(route, comp, obs):
         ctx.count('evaluations')
@@ -294,11 +296,12 @@ def check_state(ctx, model, w, hist, routes=None, perm=None):
                 '%s: %s' % (type(e).__name__, e))
         return None
 
-    def build_all(txt, route, pretty):
+    def build_all(txt, route, pretty, mm=None):
         out = {}
         if not comps:
             return out
-        mm = guarded(route, comps[0], lambda: bp.load_model(txt).build_metamodel())
+        if mm is None:
+            mm = guarded(route, comps[0], lambda: bp.load_model(txt).build_metamodel())
         if mm is None:
             return out
         for comp in comps:
@@ -319,6 +322,33 @@ def check_state(ctx, model, w, hist, routes=None, perm=None):
                     ctx.count('traces')
                     compare('pretty', comp, obs2)
         return out
+
+    if live is not None:
+        # generate, edit the loaded metamodel through the xtuml API, generate again on the same object
+        w2 = w.clone()
+        w2.apply(live)
+        mm = guarded('live', comps[0], lambda: bp.load_model(text).build_metamodel()) if comps else None
+        if mm is None:
+            return
+        built = build_all(None, 'live-before', False, mm=mm)
+        for comp in comps:
+            if comp.id in built:
+                ctx.count('traces')
+                compare('live-before', comp, built[comp.id])
+        bp.live_apply(mm, d, w2.d, live)
+        if bp.extract(bp.tables_of_metamodel(mm)) != w2.d:
+            raise core.HarnessError('live edit %r after %r does not give the population of the mirrored diagram' % (live, hist))
+        comps[:] = components(w2.d)
+        expected.clear()
+        expected.update((c.id, bp.expected_xsd(w2.d, c.id)) for c in comps)
+        built = build_all(None, 'live', False, mm=mm)
+        for comp in comps:
+            if comp.id in built:
+                ctx.count('traces')
+                ctx.count('live_runs')
+                compare('live', comp, built[comp.id])
+        ctx.count('live:' + live[0])
+        return
 
     if perm is not None:
         built = build_all(text, 'roworder', False)
@@ -388,7 +418,23 @@ def check_state(ctx, model, w, hist, routes=None, perm=None):
                 compare('main', comp, obs)
 
 
-def unit_test(model, w, comp_name, route):
+def unit_test(model, w, comp_name, route, live=None):
+    if live is not None:
+        lines = bp.snippet_model(model.base, w)
+        lines += ['import xtuml',
+                  'import xml.etree.ElementTree as ET',
+                  'from bridgepoint import ooaofooa, gen_xsd_schema',
+                  'l = ooaofooa.ModelLoader()',
+                  'l.input(text)',
+                  'm = l.build_metamodel()',
+                  'c_c = lambda: m.select_any("C_C", lambda s: s.Name == %r)' % comp_name,
+                  'for c in m.select_many("C_C"):',
+                  '    gen_xsd_schema.build_schema(m, c)          # first generation, every component',
+                  '# edit of the loaded metamodel: %r' % (live,)]
+        lines += bp.live_snippet(w.d, live)
+        lines += ['print(ET.tostring(gen_xsd_schema.build_schema(m, c_c())).decode())   # second generation, same metamodel',
+                  '# compare the declarations with the expected value recorded in this replay file']
+        return '\n'.join(lines)
     if route == 'reversed':
         lines = ['text = %r    # the INSERT statements of the model in reverse order' % bp.render(bp.reversed_rows(w.rows))]
     else:
@@ -440,6 +486,20 @@ def permute(w, perm):
     return bp.World(rows, w.d, w.fresh)
 
 
+def live_tasks(model):
+    '''One task per edit of the menu that has an API-level form, applied to the loaded start model.'''
+    h0 = list(model.prefix)
+    ops = [op for op in model.menu(model.build(h0)) if bp.live_supported(op)]
+    return [dict(base=model.name, level=model.level, hist=h0, live=op) for op in ops]
+
+
+def run_live_task(sub, task):
+    model = XsdModel(task['base'], sub.tier, sub.seed, level=task['level'])
+    explorer.guarded(sub, model, task['hist'], ['live', task['live']],
+                     lambda: check_state(sub, model, model.build(task['hist']), task['hist'], live=task['live']))
+    return None
+
+
 def run_perm_task(sub, task):
     model = XsdModel(task['base'], sub.tier, sub.seed, level=task['level'])
     w = model.build(task['hist'])
@@ -461,8 +521,9 @@ def run(ctx):
     if problems:
         raise core.HarnessError('bpsynth self-test failed: ' + '; '.join(problems))
     bp.load_model('')
-    for b in ('simple', 'rich'):
+    for b in ('simple', 'rich', 'pack'):
         bp.base_world(b)
+    bp.prefix_of('simple2')
     total = 0
     for base, level, depth, main_depth, reverse_depth, perm_edit in PLAN[ctx.tier]:
         model = XsdModel(base, ctx.tier, ctx.seed, main_depth=main_depth, level=level, reverse_depth=reverse_depth)
@@ -484,7 +545,11 @@ def run(ctx):
             tasks = perm_tasks(ctx, model, 6, perm_edit)
             ctx.pmap(run_perm_task, tasks, chunk=1)
             print('  %s: permutation tasks=%d' % (label, len(tasks)))
-        if ctx.violations:
+        if (base, level) in LIVE[ctx.tier]:
+            tasks = live_tasks(model)
+            ctx.pmap(run_live_task, tasks, chunk=4)
+            print('  %s: live edits=%d' % (label, len(tasks)))
+        if new_violations(ctx):
             return          # the property is already refuted; the remaining stages would only add more of the same
 
     for kind in ('rename_attr', 'retype_attr', 'add_attr', 'set_derived', 'enum_add', 'enum_move', 'row_move', 'add_udt',
@@ -497,6 +562,14 @@ def run(ctx):
     ctx.require(ctx.n('main_runs') >= 50, 'gen_xsd_schema.main ran only %d times' % ctx.n('main_runs'))
     ctx.require(ctx.nd('outcomes') >= 200, 'too few distinct schemas observed (%d)' % ctx.nd('outcomes'))
     ctx.require(ctx.n('locality_nonempty') >= 100, 'locality checks saw no change')
+    for kind in ('move_elem', 'rename_attr', 'retype_attr', 'enum_add'):
+        ctx.require(ctx.n('live:' + kind) >= 1, 'no live (API-level) edit of kind %s ran' % kind)
+
+
+def new_violations(ctx):
+    '''Violations of this run that no open known finding accounts for.'''
+    known = set(e.get('sig') for e in core.load_known(ctx.prop) if e.get('status') == 'known')
+    return [v for v in ctx.violations if v['sig'] not in known]
 
 
 def replay(ctx, case):
@@ -506,7 +579,9 @@ def replay(ctx, case):
 
     def one():
         w = model.build(hist)
-        if perm:
+        if case.get('live'):
+            check_state(ctx, model, w, hist, live=case['live'])
+        elif perm:
             check_state(ctx, model, permute(w, perm), hist, perm=perm)
         else:
             check_state(ctx, model, w, hist, routes='all')
@@ -533,6 +608,8 @@ def coverage(ctx):
         file_rotations=ctx.n('perm:rotate'),
         reversed_runs=ctx.n('reversed_runs'),
         main_runs=ctx.n('main_runs'),
+        live_runs=ctx.n('live_runs'),
+        live_edits=dict((k[5:], v) for k, v in ctx.counts.items() if k.startswith('live:')),
         locality_checks=ctx.n('locality_checks'),
         edits=dict((k[5:], v) for k, v in ctx.counts.items() if k.startswith('edit:')),
         bounds=dict(plan=[dict(base=p[0], palette=p[1], edit_depth=p[2], main_up_to_depth=p[3], reversed_up_to_depth=p[4])
